@@ -19,8 +19,7 @@ import translate_numgates
 
 ID = 'C06'
 COMPONENTS = ['numops', 'dec']
-THEOREMS = ['C06_compare_total_on_finite', 'C06_cmp_num_no_panic', 'C06_sum_finite_refuted']
-THEOREMS_PLANNED = ['C06_gates_ok', 'C06_numop_finite', 'C06_numop_finite_src', 'C06_sum_finite_refuted',
+THEOREMS = ['C06_gates_ok', 'C06_numop_finite', 'C06_numop_finite_src', 'C06_sum_finite_refuted',
             'C06_literal_finite_or_error', 'C06_compare_total_on_finite', 'C06_cmp_num_no_panic',
             'C06_dec_correctly_rounded', 'C06_dec_monotone', 'C06_shortest_check_sound', 'C06_check_printed_sound',
             'C06_nonvacuous']
